@@ -64,6 +64,13 @@ static int judge_path(const Qv& A, const Qv& B, const std::vector<Qv>& pts, doub
          if (!(dev <= 0.01)) ok = false;
       }
       if (ok) return 3;   // continuous with a kink
+      // A smooth but strongly curved function also leaves the chord (2LB_nonYuk ~ a (1 - 1e5 d^2) around mH+ = mA: a cancelling sum whose value
+      // is far below its terms).  Continuity is then decided on the parabola through the two ends and f(0): a step, a spike at the special point or
+      // a wrong window around it cannot lie within 1% of it at all 21 offsets.
+      const double h = 1e-3, c1 = (B.v - A.v) / (2 * h), c2 = (A.v + B.v - 2 * f0) / (2 * h * h);
+      bool okq = true;
+      for (int k = 0; k < NDS && okq; ++k) if (!(std::fabs(pts[k].v - (f0 + c1 * DS[k] + c2 * DS[k] * DS[k])) <= 0.01 * mag)) okq = false;
+      if (okq) return 4;   // continuous, smooth, curved
    }
    return res;
 }
@@ -159,6 +166,7 @@ static void thdm_base(vh::Rng& r, int maxclasses) {
                out->fail(!mech.bos.empty() ? "C11:THDM:2LB:" + mech.bos : (!mech.ferm.empty() ? "C11:THDM:2LF:" + mech.ferm : std::string("C11:THDM:") + TN[t] + ":step:" + p.first), std::string(TN[t]) + " along " + p.first + ": step of " + vh::num(jmp) + " of the magnitude at d=0", w); }
             continue; }   // |a1L|, |a2L| inside: V-shaped at zero crossings; continuity follows from the parts (composition: C18)
          if (res == 3) { out->count(std::string("continuous-with-kink(allowed):THDM:") + TN[t]); out->cell(cell + "(kink)", 0, nullptr); continue; }
+         if (res == 4) { out->count(std::string("continuous-strongly-curved(allowed):THDM:") + TN[t]); out->cell(cell + "(curved)", 0, nullptr); continue; }
          J w = cb; w.str("class", p.first).str("quantity", TN[t]).d("m0", m0).d("worst_deviation_of_magnitude", dev).d("at_d", dd).d("value", val).d("chord_lo", A[t].v).d("chord_hi", B[t].v).str("near_bosonic", mech.bos).str("near_fermionic", mech.ferm);
          out->cell(cell, dev, &w);
          if (res == 0) continue;
@@ -277,6 +285,7 @@ static void mssm_base(vh::Rng& r, int maxpaths) {
             if (jmp > 0.01) { J w = cb; w.str("class", cls).str("quantity", MN[c]).d("x0", x0).d("step_of_magnitude", jmp); out->fail(std::string("C11:MSSM:") + MN[c] + ":step:" + t.n, std::string(MN[c]) + " along " + cls + ": step of " + vh::num(jmp) + " of the magnitude at the special point", w); }
             continue; }
          if (res == 3) { out->count(std::string("continuous-with-kink(allowed):MSSM:") + MN[c]); out->cell(std::string("MSSM|") + MN[c] + "|" + t.n + "(kink)", 0, nullptr); continue; }
+         if (res == 4) { out->count(std::string("continuous-strongly-curved(allowed):MSSM:") + MN[c]); out->cell(std::string("MSSM|") + MN[c] + "|" + t.n + "(curved)", 0, nullptr); continue; }
          J w = cb; w.str("class", cls).str("quantity", MN[c]).d("x0", x0).d("worst_deviation_of_magnitude", dev).d("at_d", dd).d("value", val).d("chord_lo", A[c].v).d("chord_hi", B[c].v);
          out->cell(std::string("MSSM|") + MN[c] + "|" + t.n, dev, &w);
          if (res != 0) { std::vector<double> pv; for (auto& x : pts[c]) pv.push_back(x.v); w.vec("values_at_DS", pv).d("scale_lo", A[c].s).d("scale_hi", B[c].s); }
